@@ -15,10 +15,11 @@
                (LexParser::new_with_lex_flags);
    - [re_bad]  the offsets of rule lines whose regular expression the regex
                crate refuses to compile (Rule::new is opaque here);
-   - [fx]      which of the eight repairs are applied (record [fixes];
+   - [fx]      which of the nine repairs are applied (record [fixes];
                all false = the code as it was first read, [pinned] = that code with the
                first four repairs, [audited] = the first five (the code the auditors
-               read), [repaired] = all of them = the code as it is now).
+               read), [audited_b] = the first eight (the code the second audit read),
+               [repaired] = all of them = the code as it is now).
    The escape table, the trimming of a regex and the splitting of a declaration exist in
    two variants each: the plain name is the code as it is now, [*_orig] the code before
    the repair (kept for the [*_refuted] theorems and for the correspondence with an
@@ -85,32 +86,34 @@ Fixpoint hex_go (fuel : nat) (n : N) (acc : text) : text :=
   end.
 Definition hex_upper (n : N) : text := hex_go 8 n [].
 
-(* RE_LEX_ESC_LITERAL = ^(([xuU]([[:xdigit:]]|\{))|[[:digit:]]|[afnrtv\\]|[pP]|[dDsSwW]|[ABz])
-   matched against the text that starts at the escaped character (the code as it is now) *)
-Definition lex_esc_literal (s : text) : bool :=
+(* [0-7] *)
+Definition is_octal (c : N) : bool := in_range c 48 55.
+
+(* RE_LEX_ESC_LITERAL = ^(([xuU]([[:xdigit:]]|\{))|[0-7]|[afnrtv\\]|[pP]|[dDsSwW]|[ABz])
+   matched against the text that starts at the escaped character.  The table went through two repairs:
+   [et] = it keeps `\B` and the braced `\x{` `\u{` `\U{` (1205854), [eo] = of the digits it lists only the
+   octal ones (a1aadcd: `\8`, `\9` are escapes neither of lex nor of the regex engine). *)
+Definition lex_esc_table (et eo : bool) (s : text) : bool :=
   match s with
   | [] => false
   | c :: rest =>
-      (mem c [120; 117; 85]%N && match rest with d :: _ => is_xdigit d || (d =? 123)%N | [] => false end)
-      || is_digit c
+      (mem c [120; 117; 85]%N
+       && match rest with d :: _ => is_xdigit d || (et && (d =? 123)%N) | [] => false end)
+      || (if eo then is_octal c else is_digit c)
       || mem c [97; 102; 110; 114; 116; 118; 92]%N      (* a f n r t v \ *)
       || mem c [112; 80]%N                              (* p P *)
       || mem c [100; 68; 115; 83; 119; 87]%N            (* d D s S w W *)
-      || mem c [65; 66; 122]%N                          (* A B z *)
+      || mem c (if et then [65; 66; 122]%N else [65; 122]%N)    (* A B z  /  A z *)
   end.
 
-(* the table before the repair:  ^(([xuU][[:xdigit:]])|[[:digit:]]|[afnrtv\\]|[pP]|[dDsSwW]|[Az]) *)
-Definition lex_esc_literal_orig (s : text) : bool :=
-  match s with
-  | [] => false
-  | c :: rest =>
-      (mem c [120; 117; 85]%N && match rest with d :: _ => is_xdigit d | [] => false end)
-      || is_digit c
-      || mem c [97; 102; 110; 114; 116; 118; 92]%N      (* a f n r t v \ *)
-      || mem c [112; 80]%N                              (* p P *)
-      || mem c [100; 68; 115; 83; 119; 87]%N            (* d D s S w W *)
-      || mem c [65; 122]%N                              (* A z *)
-  end.
+(* the code as it is now *)
+Definition lex_esc_literal : text -> bool := lex_esc_table true true.
+(* the table the second audit read:  ^(([xuU]([[:xdigit:]]|\{))|[[:digit:]]|[afnrtv\\]|[pP]|[dDsSwW]|[ABz]) *)
+Definition lex_esc_literal_dec : text -> bool := lex_esc_table true false.
+(* the table before both repairs:  ^(([xuU][[:xdigit:]])|[[:digit:]]|[afnrtv\\]|[pP]|[dDsSwW]|[Az]) *)
+Definition lex_esc_literal_orig : text -> bool := lex_esc_table false false.
+(* (the digit repair on the table before the first one: only for the correspondence with such a tree) *)
+Definition lex_esc_literal_orig_oct : text -> bool := lex_esc_table false true.
 
 (* ---- strings -------------------------------------------------------------- *)
 Fixpoint text_eqb (a b : text) : bool :=
@@ -359,11 +362,15 @@ End Unescape.
 
 (* the scanner as it is now (the repaired table), with or without the two older repairs *)
 Definition unescape_gen : bool -> bool -> text -> bool -> outcome text := unescape_gen_t lex_esc_literal.
-(* ... and over the table before the repair *)
+(* ... over the table that lists every digit (the code the second audit read) *)
+Definition unescape_gen_dec : bool -> bool -> text -> bool -> outcome text := unescape_gen_t lex_esc_literal_dec.
+(* ... and over the table before both repairs *)
 Definition unescape_gen_orig : bool -> bool -> text -> bool -> outcome text := unescape_gen_t lex_esc_literal_orig.
-(* [et]: the escape-table repair *)
-Definition unescape_sel (et : bool) : bool -> bool -> text -> bool -> outcome text :=
-  if et then unescape_gen else unescape_gen_orig.
+Definition unescape_gen_orig_oct : bool -> bool -> text -> bool -> outcome text := unescape_gen_t lex_esc_literal_orig_oct.
+(* [et]: the escape-table repair (`\B`, braces); [eo]: the digit repair (octal digits only) *)
+Definition unescape_sel (et eo : bool) : bool -> bool -> text -> bool -> outcome text :=
+  if et then (if eo then unescape_gen else unescape_gen_dec)
+  else (if eo then unescape_gen_orig_oct else unescape_gen_orig).
 
 (* the scanner without the lone-backslash and white-space repairs *)
 Definition unescape := unescape_gen false false.
@@ -400,18 +407,21 @@ Record fixes := {
   fix_iw : bool;             (* unescape: under ignore_whitespace the escape before white space is kept *)
   fix_esc_table : bool;      (* RE_LEX_ESC_LITERAL keeps \B and the braced \x{ \u{ \U{ *)
   fix_decl_blanks : bool;    (* declare_start_states: empty pieces between adjacent blanks are skipped *)
-  fix_trim_blank : bool      (* trim_end_unescaped trims space and tab only *)
+  fix_trim_blank : bool;     (* trim_end_unescaped trims space and tab only *)
+  fix_esc_octal : bool       (* RE_LEX_ESC_LITERAL lists the octal digits only: `\8` `\9` stand for 8, 9 *)
 }.
-Definition mk_fixes (a b c d e f g h : bool) : fixes :=
+Definition mk_fixes (a b c d e f g h k : bool) : fixes :=
   {| fix_header := a; fix_target_span := b; fix_prefix_unescape := c; fix_dangling := d; fix_iw := e;
-     fix_esc_table := f; fix_decl_blanks := g; fix_trim_blank := h |}.
-Definition today : fixes := mk_fixes false false false false false false false false.
+     fix_esc_table := f; fix_decl_blanks := g; fix_trim_blank := h; fix_esc_octal := k |}.
+Definition today : fixes := mk_fixes false false false false false false false false false.
 (* the first four repairs *)
-Definition pinned : fixes := mk_fixes true true true true false false false false.
+Definition pinned : fixes := mk_fixes true true true true false false false false false.
 (* the first five: the code the auditors read *)
-Definition audited : fixes := mk_fixes true true true true true false false false.
+Definition audited : fixes := mk_fixes true true true true true false false false false.
+(* the first eight: the code the second audit read *)
+Definition audited_b : fixes := mk_fixes true true true true true true true true false.
 (* the code as it is now *)
-Definition repaired : fixes := mk_fixes true true true true true true true true.
+Definition repaired : fixes := mk_fixes true true true true true true true true true.
 
 (* ---- the parser -------------------------------------------------------------- *)
 Section Parser.
@@ -574,7 +584,7 @@ Section Parser.
   (* parse_start_states *)
   Definition parse_start_states (st : pstate) (off : nat) (re_str : text) : res (list nat * text) :=
     if negb (starts_with [c_lt] re_str) then
-      dor u <- lift (unescape_sel (fix_esc_table fx) (fix_dangling fx) (fix_iw fx && iw) re_str pe); ROk ([], u)
+      dor u <- lift (unescape_sel (fix_esc_table fx) (fix_esc_octal fx) (fix_dangling fx) (fix_iw fx && iw) re_str pe); ROk ([], u)
     else
       match find (N.eqb c_gt) re_str with
       | None => RErr (mk_error InvalidStartState off)
@@ -584,7 +594,7 @@ Section Parser.
           dor ids <- states_by_name st off names;
           dor rest <- lift (slice_from re_str (j + 1));
           if fix_prefix_unescape fx
-          then dor u <- lift (unescape_sel (fix_esc_table fx) (fix_dangling fx) (fix_iw fx && iw) rest pe); ROk (ids, u)
+          then dor u <- lift (unescape_sel (fix_esc_table fx) (fix_esc_octal fx) (fix_dangling fx) (fix_iw fx && iw) rest pe); ROk (ids, u)
           else ROk (ids, rest)
       end.
 
